@@ -33,9 +33,11 @@ WHY = {  # finding id (or prefix) -> why it is listed instead of repaired
  "C10-near-identity-probe-tolerance": "validation by numerical probing with np.allclose defaults; tightening it to math.isclose still admits eps=1e-12 (probing is the documented mechanism)",
  "C10-near-reciprocal-probe-tolerance": "inherent to validation by numerical probing (rel 1e-9 at three points); measurable only at extreme scales",
  "C10-legacy-conjugate-no-structural-validation-near": "same defect as C10-legacy-conjugate-no-structural-validation",
- "C15-tiny-scale-bfgs-precision-loss": "_solve_max_point ignores the solver's success flag and BFGS settings are fixed; needs scaling-aware solver settings or raising on failure",
+ "C15-solver-failure-ignored": "_solve_max_point ignores the solver's success flag and BFGS settings are fixed; needs scaling-aware solver settings or raising on failure",
  "C16-lm-absolute-damping-floor-small-residuals": "making nu0 relative changes every LM trajectory",
  "C16-lm-sparse-singular-step-nan": "rejecting non-finite trials (tried) turns the NaN return into a stalled run to maxit; needs a proper singular-step strategy",
+ "C08-nan-leaf-poisons-step-size": "a NaN leaf makes the acceptance statistic NaN; treating a non-finite energy error as acceptance 0 touches both NUTS implementations (their equivalence is pinned by tests) - left as a finding",
+ "C16-lm-absolute-damping-floor-tiny-residuals-stop": "same root cause as C16-lm-absolute-damping-floor-small-residuals",
  "C12-samples-funvals-flag-ignored": "honouring is_par/is_vec of a Samples input changes behaviour of Model.__call__ on Samples",
  "C13-funvec-shape-stale-after-regrid": "invalidating the cached funvec_shape interacts with geometry equality (derived attribute compared in _all_values_equal)",
  "C13-step-empty-when-nsteps-is-ngrid-minus-1": "needs tolerance- or index-based interval membership; test_stepExpansion_fun2par compares with raw float inequalities",
